@@ -40,12 +40,30 @@ def throwE (e : HsErr) : M α := fun t => (t, .err e)
 def panicAt (p : HPanic) : M α := fun t => (t, .panic p)
 def liftRes (r : HR α) : M α := fun t => (t, r)
 
-/-- what `RoundResult` / `StageResult` carry besides the stream -/
+/-- `StageResult` without the stream -/
+inductive GStage where
+  | doneReading (h : RawHead) (tail : Bytes)
+  | doneWriting
+  deriving Repr, Inhabited
+
+/-- `RoundResult` without the stream: a `HandshakeMachine` is its state -/
 inductive GRound where
   | wouldBlock (s : HState)
   | incomplete (s : HState)
-  | doneReading (h : RawHead) (tail : Bytes)
-  | doneWriting
+  | stageFinished (s : GStage)
+  deriving Repr, Inhabited
+
+/-- `ProcessingResult`: carry on with a machine, or done -/
+inductive GProc (φ : Type) where
+  | continue_ (s : HState)
+  | done (r : φ)
+  deriving Repr, Inhabited
+
+/-- what `MidHandshake::handshake` returns besides a failure: the final result, or
+`HandshakeError::Interrupted` with the role and the machine to resume from -/
+inductive GHs (ρ φ : Type) where
+  | done (r : φ)
+  | interrupted (role : ρ) (s : HState)
   deriving Repr, Inhabited
 
 /-- `buf.read_from(&mut stream).no_block()?`: the buffer afterwards and the byte count
@@ -87,8 +105,8 @@ def streamFlushNoBlock : M (Option Unit) := fun t =>
 def ofRound : Round → HR GRound
   | .wouldBlock s => .ok (.wouldBlock s)
   | .incomplete s => .ok (.incomplete s)
-  | .doneReading _ h tail => .ok (.doneReading h tail)
-  | .doneWriting => .ok .doneWriting
+  | .doneReading _ h tail => .ok (.stageFinished (.doneReading h tail))
+  | .doneWriting => .ok (.stageFinished .doneWriting)
   | .err e => .err e
   | .panic => .panic .writingEmpty
 
